@@ -18,6 +18,22 @@ CHECKS = {
         design_ref="3 C05",
         technique="symbolic execution of the real Python functions with CrossHair (z3), environment stubs, replay on the real stack",
     ),
+    "C14": dict(
+        category="other",
+        text="Bounded symbolic execution (CrossHair/z3) of the real connect ladder over the complete product of connect arguments, "
+        "letter case, both auto-create flags, storage mode, pre-existing database/schema and a second live session, against a DuckDB "
+        "catalog stand-in validated against real DuckDB; counterexamples are replayed on real DuckDB.",
+        design_ref="3 C14",
+        technique="symbolic execution of the real Python functions with CrossHair (z3) over a catalog stub; replay on the real stack",
+    ),
+    "C04": dict(
+        category="other",
+        text="Bounded symbolic execution (CrossHair/z3) of the real execute path: the affected-row count DuckDB reports is a symbolic "
+        "integer and the status row, its column names and rowcount must equal it for every DML form; DDL status text over a pool of "
+        "object spellings and qualification levels.",
+        design_ref="3 C04",
+        technique="symbolic execution of the real Python functions with CrossHair (z3), symbolic engine answers; replay on the real stack",
+    ),
 }
 
 NOT_YET = "not claimed yet: check not built in this round (see DESIGN.md 7 for the order of work)"
